@@ -121,7 +121,8 @@ NEEDS3 = {
  "C19-8": "x31 in any register set of the dump",
 }
 NEEDS2.update(NEEDS3)
-FIRST2_CAUGHT = {"C01-4", "C02-3", "C02-4", "C03-3", "C03-4", "C03-5", "C05-3", "C06-5", "C07-3", "C07-4", "C08-3", "C08-4", "C08-5",
+FIRST3_CAUGHT = {'C01-7', 'C01-8', 'C02-7', 'C03-6', 'C03-7', 'C03-8', 'C04-7', 'C05-6', 'C05-7', 'C05-8', 'C06-6', 'C06-8', 'C07-8', 'C08-6', 'C08-8', 'C09-6', 'C09-7', 'C10-6', 'C10-7', 'C10-8', 'C11-7', 'C12-6', 'C12-8', 'C13-7', 'C14-6', 'C14-8', 'C15-7', 'C15-8', 'C16-6', 'C16-7', 'C16-8', 'C17-6', 'C17-7', 'C17-8', 'C18-6', 'C18-7', 'C18-8', 'C19-6', 'C19-7', 'C19-8'}
+FIRST2_CAUGHT = FIRST3_CAUGHT | {"C01-4", "C02-3", "C02-4", "C03-3", "C03-4", "C03-5", "C05-3", "C06-5", "C07-3", "C07-4", "C08-3", "C08-4", "C08-5",
                  "C10-3", "C10-4", "C10-5", "C11-3", "C11-4", "C11-5", "C12-5", "C13-4", "C13-5", "C14-3", "C15-3", "C15-5", "C16-3",
                  "C17-3", "C17-5", "C18-3", "C18-4", "C18-5", "C19-3", "C19-5"}
 
